@@ -251,10 +251,10 @@ def pick_text(rng, bg, thr, band):
 ALL_FEATURES = (
     "vars", "var-fallback", "var-undefined", "var-chain", "var-shared", "root-direct-color", "root-and-html",
     "important", "repeat-decl", "prop-case", "nesting", "bg-var", "keywords", "opaque-atrules", "vendor-hacks",
-    "star-hack", "non-ascii", "crlf", "bom", "cdo-cdc", "alpha-text", "comments", "no-color-rules", "odd-strings", "dup-root", "nested-root", "unicode-seps", "dup-selectors", "own-colour-elsewhere", "css-nesting",
+    "star-hack", "non-ascii", "crlf", "bom", "cdo-cdc", "alpha-text", "comments", "no-color-rules", "odd-strings", "dup-root", "nested-root", "unicode-seps", "dup-selectors", "own-colour-elsewhere", "css-nesting", "comment-in-value", "stale-charset",
 )
 # features outside what the reference cascade of C08 models or what C08's statement quantifies over
-C09_ONLY = ("opaque-atrules", "vendor-hacks", "star-hack", "crlf", "bom", "cdo-cdc", "odd-strings", "dup-root", "nested-root", "unicode-seps", "dup-selectors", "css-nesting")
+C09_ONLY = ("opaque-atrules", "vendor-hacks", "star-hack", "crlf", "bom", "cdo-cdc", "odd-strings", "dup-root", "nested-root", "unicode-seps", "dup-selectors", "css-nesting", "comment-in-value", "stale-charset")
 
 _SEL_FORMS = (".r%d", "#id%d", "a.x%d:hover", "div > p.k%d", "[data-x=\"%d\"]", "ul li.i%d", "h%d", "p.c%d::before", "a.u%d, a.u%d:visited",
               "input[type='text'].q%d", "a+b.s%d", "li ~ li.t%d")
@@ -409,6 +409,10 @@ class SheetGen:
         band = r.choice(("pass", "pass", "pass-hair", "fix", "fix", "fix", "fix-hair", "mid", "hard", "same", "random"))
         text_rgb, _ = pick_text(r, bg_rgb, self.thr, band)
         v, kind = self.color_value(text_rgb, bg=bg_rgb)
+        if "comment-in-value" in f and r.random() < 0.4:
+            # an annotation inside the declaration value, between the colon and the semicolon
+            v = r.choice(("%s /* muted */", "/* brand */ %s", "%s/*x*/")) % v
+            kind = kind + "+comment"
         cd = {"p": _prop_case(r, "color", f), "v": v, "imp": ""}
         extra = []
         if "repeat-decl" in f and r.random() < 0.3:
@@ -584,7 +588,8 @@ class SheetGen:
             else:
                 items.insert(r.randrange(len(items) + 1), e)
         sheet = {"items": items, "style": r.choice(("pretty", "compact", "loose")), "crlf": "crlf" in f and r.random() < 0.7,
-                 "bom": "bom" in f and r.random() < 0.7, "charset": "opaque-atrules" in f and r.random() < 0.3,
+                 "bom": "bom" in f and r.random() < 0.7,
+                 "charset": (r.choice(("windows-1252", "iso-8859-1", "latin1", "UTF-8")) if "stale-charset" in f else ("opaque-atrules" in f and r.random() < 0.3)),
                  "final_nl": r.random() < 0.8}
         return sheet
 
@@ -640,7 +645,7 @@ def _render_items(items, style, indent):
 def render(sheet):
     txt = _render_items(sheet["items"], sheet.get("style", "pretty"), 0)
     if sheet.get("charset"):
-        txt = "@charset \"utf-8\";\n" + txt
+        txt = "@charset \"%s\";\n" % (sheet["charset"] if isinstance(sheet["charset"], str) else "utf-8") + txt
     if not sheet.get("final_nl", True):
         txt = txt.rstrip("\n")
     if sheet.get("crlf"):
